@@ -1,6 +1,7 @@
 package main
 
 import (
+	"go/types"
 	"regexp"
 	"sort"
 	"strings"
@@ -135,3 +136,12 @@ func isSuccessReturn(r *ssa.Return) bool {
 func sortStrings(s []string) { sort.Strings(s) }
 
 func regexpMust(p string) *regexp.Regexp { return regexp.MustCompile(p) }
+
+// implementsPtr: *named implements the interface type iface.
+func implementsPtr(named *types.Named, iface types.Type) bool {
+	it, ok := iface.Underlying().(*types.Interface)
+	if !ok {
+		return false
+	}
+	return types.Implements(types.NewPointer(named), it) || types.Implements(named, it)
+}
